@@ -399,6 +399,17 @@ impl Driver for C12 {
                                 } else {
                                     // the two models are equal up to the harmless re-normalisations
                                     // (checked above), only the text differs
+                                    // lm2 is a compiled linear model as well: its rendering must be accepted too
+                                    // (whether the texts ever settle is not asked: a contracting bound
+                                    // propagation tightens a little more on every round)
+                                    if !matches!(compile_text(&t2), Recompiled::Ok(_)) {
+                                        out.violation(
+                                            "second-rendering-rejected",
+                                            "the rendering of the re-compiled linear model does not compile",
+                                            detail(route, text, json!({"second": t2})),
+                                        );
+                                        continue;
+                                    }
                                     out.violation(
                                         "linear-rendering-not-a-fixed-point(models-equal-after-normalisation)",
                                         "rendering the re-compiled linear model gives a different text (tautological rows dropped, Boolean rows re-normalised, domains tightened again or unused variables removed); the models are equivalent",
